@@ -26,7 +26,7 @@ NOT_DECIDED = ["behaviour at an actual crash point (process kill) - only the ord
                "that the back-end libraries (PyTables, netCDF4, xdrfile) persist data on flush/sync",
                "equality of file content between k calls and one call (run-time)"]
 ASSUMPTIONS = ["PyTables EArray.append and netCDF variable assignment validate the per-frame shape themselves (atom count) before storing"]
-FLOORS = {"C19-R1": 11, "C19-R2": 9, "C19-R3": 3, "C19-R4": 4, "C19-R5": 6, "C19-R6": 6, "C19-R7": 24}
+FLOORS = {"C19-R1": 11, "C19-R2": 9, "C19-R3": 3, "C19-R4": 4, "C19-R5": 6, "C19-R6": 6, "C19-R7": 24, "C19-R8": 50}
 
 WRITERS = ["h5", "nc", "xtc", "trr", "dcd", "dtr", "mdcrd", "xyz", "lammpstrj", "gro", "pdb", "lh5", "rst7", "ncrst"]
 IO_ERRORS = ("IOError", "OSError", "RuntimeError", "MemoryError", "NotImplementedError", "ImportError")
@@ -153,8 +153,10 @@ def check(ctx):
     ctx.rule("C19-R3", "a default time/step synthesised from the per-call frame count depends on the writer's frame counter")
     ctx.rule("C19-R4", "position counters are advanced only after the frame data was handed to the backend")
     ctx.rule("C19-R5", "header / initialisation calls are guarded by a first-write flag which is cleared on the same path")
+    ctx.rule("C19-R8", "HDF5 / NetCDF: write() evaluated on model array stores - k calls leave the arrays and the frame counter of one call; a ragged later write is refused and changes nothing")
     ctx.rule("C19-R7", "in the frame loop of a text writer every use of per-frame data is indexed by the loop variable; nothing reduced over the frames of one call is used inside the loop")
     _r7(ctx)
+    _r8_array_stores(ctx)
     ctx.rule("C19-R6", "HDF5.write passes flush() on every normal exit; flush() reaches the backend sync; the reporter flushes after write")
 
     for key in WRITERS:
@@ -702,3 +704,123 @@ def _r7(ctx):
                             bad = "line %d is `%s` when written at once and `%s` when written in several calls" % (k_ + 1, T.show(x_, 90), T.show(y_, 90))
                             break
                 ctx.decide(bad is None, "C19-R7", fn, rel, q, desc, "%d lines" % len(l1), "%s: what is written for a frame depends on the other frames of the same write() call" % bad)
+
+
+# ---------------------------------------------------------------------------------------------------
+# R8: HDF5 / NetCDF writers evaluated on model array stores
+# ---------------------------------------------------------------------------------------------------
+def _r8_array_stores(ctx):
+    """HDF5TrajectoryFile.write and NetCDFTrajectoryFile.write evaluated (sa/tensym.py) on model files whose arrays grow along the frame axis
+    (sa/stores.py, sa/h5model.py), with symbolic frames.  By value: n frames written in k calls leave the same arrays (coordinates, time, cell) and the
+    same frame counter as one call; a later write that changes the atom count, or adds / drops time or cell, is refused and leaves every array as it
+    was."""
+    from .. import stores as S, h5model as H
+    from ..tensym import TenSym, Ten, Raised
+    from ..pysym import Unsupported as PUnsupported
+    from .. import textio as T
+    NA = 3
+    ev = TenSym({})
+
+    def cut(t, a, b):
+        if t is None:
+            return None
+        v = ev.getitem(t, (slice(a, b),))
+        return Ten(v.shape, list(v.data))
+    splits = [(2, [(0, 1), (1, 2)]), (3, [(0, 1), (1, 3)]), (3, [(0, 2), (2, 3)])]
+    if ctx.tier == "thorough":
+        splits += [(4, [(0, 1), (1, 2), (2, 4)]), (4, [(0, 3), (3, 4)])]
+    fields = ("coordinates", "time", "cell_lengths", "cell_angles")
+    for key in ("h5", "nc"):
+        rel, cls = F.rel_cls(key)
+        fn = F.method(ctx, key, "write")
+        q = cls + ".write"
+
+        def new_file():
+            return H.h5_file(ctx, "w", n_atoms=NA) if key == "h5" else S.netcdf_file(ctx, "w")
+
+        def write(me, **kw):
+            kw = {k_: v_ for k_, v_ in kw.items() if v_ is not None}
+            if key == "h5":
+                return H.call(ctx, me, "write", **kw)[1]
+            try:
+                S.run_method(ctx, key, me, "write", **kw)
+                return None
+            except Raised as e:
+                return e.exc or str(e)
+
+        def contents(me):
+            nodes = me._nodes if key == "h5" else me._handle.variables
+            return {k_: S.stored(v_) for k_, v_ in nodes.items()}
+        for has_time, has_cell in ((True, True), (False, False), (True, False)):
+            vdesc = "%s time, %s cell" % ("with" if has_time else "without", "with" if has_cell else "without")
+            for n, part in splits:
+                desc = "%d frames in calls of %s (%s): the arrays of one call" % (n, [b_ - a_ for a_, b_ in part], vdesc)
+                try:
+                    arr = H.arrays(n, NA, fields=tuple(f_ for f_ in fields if f_ == "coordinates" or (f_ == "time" and has_time) or (f_.startswith("cell") and has_cell)))
+                    one, many = new_file(), new_file()
+                    e1 = write(one, **arr)
+                    es = [write(many, **{k_: cut(v_, a_, b_) for k_, v_ in arr.items()}) for a_, b_ in part]
+                    why = None
+                    if e1 or any(es):
+                        why = "a write is refused: %s" % (e1 or next(e_ for e_ in es if e_))[:90]
+                    else:
+                        c1, c2 = contents(one), contents(many)
+                        if sorted(c1) != sorted(c2):
+                            why = "arrays %s when written at once, %s in several calls" % (sorted(c1), sorted(c2))
+                        else:
+                            for k_ in sorted(c1):
+                                if not T.same_value(c1[k_], c2[k_]):
+                                    why = "`%s` holds %s rows written at once and %s rows written in several calls, or other values" % (k_, c1[k_].shape[0], c2[k_].shape[0])
+                                    break
+                            if why is None:
+                                for k_ in sorted(arr):
+                                    nm = H.NODE_OF.get(k_, k_)
+                                    if nm not in c1 or not T.same_value(c1[nm], arr[k_]):
+                                        why = "`%s` does not hold the frames handed to write()" % nm
+                                        break
+                            if why is None and (one._frame_index != n or many._frame_index != n):
+                                why = "the frame counter is %s / %s after %d frames" % (one._frame_index, many._frame_index, n)
+                    ctx.decide(why is None, "C19-R8", fn, rel, q, desc, "", "%s: incremental writing does not give the file of one-shot writing" % why)
+                except PUnsupported as e:
+                    ctx.undecided("C19-R8", fn, rel, q, desc, "not evaluable: %s" % e)
+        # ---- ragged writes are refused and change nothing
+        base = H.arrays(2, NA)
+        extra = H.arrays(2, NA + 1)
+        no_time = {k_: v_ for k_, v_ in base.items() if k_ != "time"}
+        no_cell = {k_: v_ for k_, v_ in base.items() if not k_.startswith("cell")}
+        bare = {"coordinates": base["coordinates"]}
+        cases = [("another atom count", base, dict(base, coordinates=extra["coordinates"])),
+                 ("time left out", base, no_time),
+                 ("the cell left out", base, no_cell),
+                 ("cell angles left out", base, {k_: v_ for k_, v_ in base.items() if k_ != "cell_angles"}),
+                 ("the cell left out (file without time)", no_time, bare),
+                 ("time added (file without time)", no_time, base),
+                 ("time left out (file without cell)", no_cell, bare),
+                 ("a cell added (file without cell)", no_cell, base),
+                 ("time and cell added (file with coordinates only)", bare, base)]
+        for what, first, second in cases:
+            base = first
+            desc = "a later write with %s is refused and leaves the arrays as they were" % what
+            try:
+                me = new_file()
+                e0 = write(me, **base)
+                before = {k_: Ten(v_.shape, list(v_.data)) for k_, v_ in contents(me).items()}
+                e1 = write(me, **second)
+                after = contents(me)
+                why = None
+                if e0:
+                    why = "the first write is refused: %s" % e0[:80]
+                elif not e1:
+                    why = "it is accepted"
+                elif sorted(before) != sorted(after) or any(not T.same_value(before[k_], after[k_]) for k_ in before):
+                    ch = [k_ for k_ in after if k_ not in before or not T.same_value(before[k_], after[k_])]
+                    why = "it is refused, but `%s` has already changed (%s rows before, %s after)" % (ch[0], before[ch[0]].shape[0] if ch[0] in before else 0, after[ch[0]].shape[0])
+                ctx.decide(why is None, "C19-R8", fn, rel, q, desc, (e1 or "")[:40], "%s: the file becomes ragged" % why)
+                # the file still takes frames of the right kind afterwards
+                if why is None:
+                    e2 = write(me, **base)
+                    a2 = contents(me)
+                    ok2 = not e2 and all(a2[k_].shape[0] == 4 for k_ in a2)
+                    ctx.decide(ok2, "C19-R8", fn, rel, q, "after a refused write (%s) the file accepts further frames of its own kind" % what, "", "a regular write after the refused one %s" % ("is refused: %s" % e2[:60] if e2 else "leaves arrays of %s rows" % {k_: a2[k_].shape[0] for k_ in a2}))
+            except PUnsupported as e:
+                ctx.undecided("C19-R8", fn, rel, q, desc, "not evaluable: %s" % e)
